@@ -6,6 +6,7 @@
 
    RepairProofs2 has the forward direction (a well-formed block makes the matching writer call
    succeed and keeps `Wrep`); here the calls are given and the blocks are derived. *)
+From MLA Require Import Limit.
 From MLA Require Import Base Stream Blocks Writer WriterProofs RepairSpec RepairPure RepairProofs2 FlushProofs.
 From Coq Require Import ZifyBool ZifyNat ZifyN.
 Open Scope N_scope.
@@ -32,6 +33,7 @@ Proof.
 Qed.
 
 Section Run.
+  Context {LIM : Limit}.
   Variable FNMAX : N.
   Variables T_START T_CONTENT T_EOA T_EOF : N.
   Variable H : bytes -> bytes.
